@@ -142,6 +142,11 @@ def check(ctx, rep):
     for o in sub.obs:
         if o.rule == "R-CB-TOTAL":
             rep.ob("R-CB-TOTAL", o.key, o.ok, o.detail, o.where, o.trace)
+    # "never dropped", retry layer: the completion callback finds the job of the finished attempt only if its walk over
+    # the job list cannot skip an entry (shared with C05)
+    rep.rule("R-FIND", "every walk over the retry job list happens with the executor lock held or over a copy of the list (an iterator over the live list skips an entry when another thread removes one: the finished attempt's job is not found and its outcome is dropped)")
+    nwalk = roles.iteration_rule(ctx, rep, roles.Queue(ctx, ctx.prog.cls("RetryExecutor")), "R-FIND")
+    rep.count("walks over the retry job list", nwalk, 3)
     # "invoked with exactly the submitted arguments", whatever they are called: submit() must not have named parameters
     # of its own that a keyword argument meant for the callable can collide with -- neither directly nor in the
     # method it forwards **kwargs to (ThreadPoolExecutor.submit takes its own parameters positionally only)
@@ -350,6 +355,51 @@ def _deferred(ctx, rep):
                 rep.ob("R-LINK", "retry callback: the outcome goes to the future of the job whose delegate completed", ok, "job selected by %s, outcome set on %s" % (fmt(found[0].d[0]) if found else None, fmt(r)), where_of(cb), trace_of(p))
 
 
+EXC_CHANGERS = ("with_traceback", "add_note", "__setattr__", "__setstate__", "__init__")
+
+
+def exc_untouched_rule(ctx, rep, rule):
+    """the copy helpers hand the exception object on without changing it (shared with C13): no with_traceback() /
+    add_note() on it, no store into its attributes (args, __traceback__, __cause__, __context__ ...).  The traceback a
+    user sees on the propagated exception is the one it was raised with."""
+    prog = ctx.prog
+    from .c18 import may_raise as _may_raise
+    n = 0
+    for name in ("common:copy_exception", "common:copy_future_exception"):
+        fi = prog.fn(name)
+        ps, it = ctx.paths(fi, None, depth=1, may_raise=_may_raise)
+        for p in ps:
+            # the terms that are handed to a setter as "the exception" on this path
+            excs = set()
+            for e in p.calls():
+                if q.call_name(e) in ("set_exception_info", "set_exception") and e.d["args"]:
+                    a0 = e.d["args"][0]
+                    excs.add(a0)
+                    while isinstance(a0, tuple) and a0 and a0[0] == "call" and isinstance(a0[1], tuple) and a0[1][0] == "attr" and a0[1][2] in EXC_CHANGERS:
+                        a0 = a0[1][1]
+                        excs.add(a0)
+            if not excs:
+                continue
+            n += 1
+            bad = None
+            for e in p.events:
+                if e.kind == "call":
+                    f = e.d["func"]
+                    if isinstance(f, tuple) and f[0] == "attr" and f[2] in EXC_CHANGERS and f[1] in excs:
+                        bad = (e, "%s.%s(...)" % (fmt(f[1]), f[2]))
+                        break
+                    if q.call_name(e) == "setattr" and e.d["args"] and e.d["args"][0] in excs:
+                        bad = (e, "setattr(%s, ...)" % fmt(e.d["args"][0]))
+                        break
+                elif e.kind in ("store", "del"):
+                    t = e.d.get("target")
+                    if isinstance(t, tuple) and t and t[0] == "attr" and t[1] in excs:
+                        bad = (e, "store into %s" % fmt(t))
+                        break
+            rep.ob(rule, "%s: the exception object is handed on unchanged" % fi.name, bad is None, "%s changes the exception object that is being propagated (its traceback / notes / attributes are no longer the ones it was raised with -- e.g. the traceback of whatever unrelated exception the resolving thread happens to be handling replaces its own)" % (bad[1] if bad else ""), where_of(bad[0].fn, bad[0].node) if bad else where_of(fi), trace_of(p, bad[0].seq) if bad else None)
+    rep.require(n >= 3, "copy helpers: paths that store an exception not found")
+
+
 def copy_complete_rule(ctx, rep, rule):
     """shared with the combinators (C14, C15) whose failure rows end in this helper"""
     prog = ctx.prog
@@ -376,7 +426,8 @@ def copy_complete_rule(ctx, rep, rule):
 def _copy_helpers(ctx, rep):
     prog = ctx.prog
     ce = prog.fn("common:copy_exception")
-    ps, it = ctx.paths(ce, None, depth=0)
+    from .c18 import may_raise as _may_raise
+    ps, it = ctx.paths(ce, None, depth=0, may_raise=_may_raise)
     FUT, EXC, TB = (("param", x) for x in ce.params[:3])
     n = 0
     for p in ps:
@@ -395,6 +446,7 @@ def _copy_helpers(ctx, rep):
                 rep.ob("R-EXC-ID", "copy_exception: the given exception object is stored as is", a0 == EXC, "%s(%s)" % (q.call_name(e), fmt(a0) if a0 else None), where_of(ce, e.node), trace_of(p, e.seq))
     rep.require(n >= 4, "copy_exception: setter calls not found")
     copy_complete_rule(ctx, rep, "R-EXC-ID")
+    exc_untouched_rule(ctx, rep, "R-EXC-ID")
     cfe = prog.fn("common:copy_future_exception")
     ps, it = ctx.paths(cfe, None, depth=0)
     F1, F2 = ("param", cfe.params[0]), ("param", cfe.params[1])
